@@ -144,6 +144,9 @@ def run(c):
                 if t:
                     l["taxes"] = t
         docs.append(d)
+    # documents constructed to sit just under a rounding boundary of a category accumulation (amounts / surcharges of two
+    # rate groups of different precision), in both row orders
+    docs += cg.boundary_pair_docs(c.rng, 150 if quick else 5000)
     shown = 0
     nbad = 0
     for i in range(0, len(docs), 20000):
